@@ -101,9 +101,9 @@ theorem C06_expref_args_shape (b : Builtin) (args : List Val) (off : Nat) (hv : 
 
 /-! ### the argument-type, value and type-tag vocabularies (functions.rs:20, variable.rs:52, :22), re-extracted on every run -/
 theorem C06_type_vocabulary :
-    Generated.argumentTypeFields.map (·.1) = ["Any", "Null", "String", "Number", "Bool", "Object", "Array", "Expref", "TypedArray", "Union"]
-    ∧ Generated.jmespathTypeFields.map (·.1) = ["Null", "String", "Number", "Boolean", "Array", "Object", "Expref"]
-    ∧ Generated.variableFields.map (·.1) = ["Null", "String", "Bool", "Number", "Array", "Object", "Expref"]
+    Generated.argumentTypeFields.map (·.1) = ["Any", "Array", "Bool", "Expref", "Null", "Number", "Object", "String", "TypedArray", "Union"]
+    ∧ Generated.jmespathTypeFields.map (·.1) = ["Array", "Boolean", "Expref", "Null", "Number", "Object", "String"]
+    ∧ Generated.variableFields.map (·.1) = ["Array", "Bool", "Expref", "Null", "Number", "Object", "String"]
     ∧ (∀ t : ArgT, Generated.argumentTypeVariant t ∈ Generated.argumentTypeFields.map (·.1))
     ∧ (∀ v : Val, Generated.variableVariant v ∈ Generated.variableFields.map (·.1))
     ∧ (∀ v : Val, Generated.jmespathTypeVariant v.type ∈ Generated.jmespathTypeFields.map (·.1)) := by
